@@ -22,11 +22,13 @@ Kinds == { [k |-> "free", lo |-> Inf, hi |-> Inf], [k |-> "lo", lo |-> Fin(R(0))
 XOf(kd) == IF kd.k = "fix" THEN {2} ELSE XSet
 VarPatterns == UNION { { [kd |-> kd, x |-> xv] : xv \in XOf(kd) } : kd \in {k \in Kinds : k.k \in KindNames} }
 PatSeq == SetToSeq(VarPatterns)
-FirstPatterns == {PatSeq[i] : i \in {j \in 1..Len(PatSeq) : j % ShardN = ShardK}}
+PatIdx(p) == CHOOSE i \in 1..Len(PatSeq) : PatSeq[i] = p
+\* shards are balanced over the patterns of the first TWO variables (n >= 2)
+InShard(pt) == (PatIdx(pt[1]) * Len(PatSeq) + (IF N >= 2 THEN PatIdx(pt[2]) ELSE 0)) % ShardN = ShardK
 
 VARIABLES A, b, pat, done
 vars == <<A, b, pat, done>>
-Init == /\ A \in AMenu /\ b \in [1..N -> BAll] /\ pat \in [1..N -> VarPatterns] /\ pat[1] \in FirstPatterns
+Init == /\ A \in AMenu /\ b \in [1..N -> BAll] /\ pat \in [1..N -> VarPatterns] /\ InShard(pat)
         /\ done = FALSE
 
 AR == [i \in 1..N |-> [j \in 1..N |-> R(A[i][j])]]
